@@ -87,9 +87,11 @@ T_ImDrop == IsEv("im_drop") /\ IM_Drop
 MaxXml == 10485760
 T_WFinalize == /\ IsEv("w_finalize") /\ NoPanic
                /\ ChkP(ENABLED W_Finalize(E.res, E.custom), {"C10"}, "empty-guid-accepted")
+               \* E.nonxml: the program passed a string with a character XML 1.0 cannot represent (asserted by the generator):
+               \* it cannot be stored faithfully, finalize may (and, for the file to be readable, must) refuse
                \* the reader accepts XML sections of at most 10 MiB; a file whose XML must be longer (E.text_lb = bytes of text
                \* handed to the writer) may be refused by finalize -- and must be, or the library could not read its own file
-               /\ ChkP((sc.guid # "" /\ ~sc.dead /\ ~E.custom /\ E.text_lb <= MaxXml - 1048576) => IsOk(E.res), {"C10", "C01", "C04", "C06"}, "valid-call-rejected")
+               /\ ChkP((sc.guid # "" /\ ~sc.dead /\ ~E.custom /\ E.text_lb <= MaxXml - 1048576 /\ E.nonxml = 0) => IsOk(E.res), {"C10", "C01", "C04", "C06"}, "valid-call-rejected")
                /\ W_Finalize(E.res, E.custom)
 
 \* a finalized file too large to be recorded: the library must at least open what it wrote
